@@ -86,7 +86,7 @@ def builders():
     O = R.RCPOpcode
     ct = lambda r: r.choice(list(R.RCPCallType))
     res = lambda r: r.choice(list(R.RCPResult))
-    id32 = lambda r: r.choice([1, 2 ** 24 - 1, 2 ** 32 - 1, r.getrandbits(32) or 1])
+    id32 = lambda r: r.choice([0, 1, 2 ** 24 - 1, 2 ** 32 - 1, r.getrandbits(32)])
     rcp = {
         "CallRequest": lambda r: dict(call_type=ct(r), target_id=id32(r)),
         "CallReply": lambda r: dict(result=res(r)),
